@@ -322,6 +322,14 @@ def record_programs(lentil, rng, nprog, nsteps):
     offl = 0
     for tid in range(nprog):
         w, v = rand_spec(rng, nonneg=True)
+        # one program in seven follows a script: trim, put back as many samples as were cut (other content, same length), trim
+        # again with the same tolerance - what was kept the first time says nothing about what is kept the second time
+        script = None
+        if rng.random() < 0.15:
+            w, v = rand_spec(rng, uniform=True, nonneg=True, n=rng.randint(5, 7))
+            nz = rng.choice((1, 2))
+            v = [Fr(0)] * nz + [Fr(rng.randint(2, 12), 4) for _ in v[nz:]]
+            script = {'acts': ['trim', 'pad', 'trim', 'crop'], 'tol': Fr(1, 10000), 'add': nz}
         s = sp.real_spectrum(lentil, sp.spec_json('nm', rng.choice((None, 'photlam')), w, v))
         for k in range(nsteps):
             pre = sp.observed_json(s)
@@ -339,6 +347,8 @@ def record_programs(lentil, rng, nprog, nsteps):
             def detie(val):
                 return val + f / 8 if (inexact and val in wv) else val
             act = rng.choice(('crop', 'crop', 'trim', 'pad', 'append', 'resample', 'resample', 'towave'))
+            if script is not None and k < len(script['acts']):
+                act = script['acts'][k]
             ev = {'id': len(events), 'tid': tid, 'seq': k, 'act': act, 'pre': pre}
             try:
                 if act == 'crop':
@@ -351,6 +361,8 @@ def record_programs(lentil, rng, nprog, nsteps):
                     s.crop(float(lo), float(hi))
                 elif act == 'trim':
                     tol = rng.choice((Fr(1, 10000), Fr(1, 4), Fr(1, 2))) if not inexact else Fr(1, 10000)
+                    if script is not None:
+                        tol = script['tol']
                     # leading / trailing small values so that trimming has something to do
                     ev.update(tol=sp.rj(tol))
                     s.trim(float(tol))
@@ -358,6 +370,9 @@ def record_programs(lentil, rng, nprog, nsteps):
                     left = wv[0] - f * rng.choice((0, 1, 2, 3, Fr(5, 2), -1))          # -1: an end INSIDE the range
                     right = wv[-1] + f * rng.choice((0, 1, 2, 4, Fr(3, 2), -1))
                     vals = (Fr(rng.choice((0, 1))), Fr(rng.choice((0, 2))))
+                    if script is not None and k < len(script['acts']):
+                        # (the uniform 2 nm grid continued on the right by as many zero samples as were cut on the left)
+                        left, right, vals = wv[0], wv[-1] + 2 * f * script['add'], (Fr(0), Fr(0))
                     ev.update(ends=[sp.rj(left), sp.rj(right)], vals=[sp.rj(vals[0]), sp.rj(vals[1])])
                     s.pad((float(left), float(right)), sampling=rng.choice(('min', float(f), float(f / 2))), values=(float(vals[0]), float(vals[1])))
                 elif act == 'append':
